@@ -28,8 +28,26 @@ PROPS_FILES = ['ChibiVerif/Props/C02.lean']
 NEEDS_HOOKS = False
 TRUSTED_BASE = [
     'Lean 4.33.0 kernel; axioms admitted: propext, Classical.choice, Quot.sound (audited per theorem on every run)',
+    'Spec/FpuSpec.lean: the ASSUMED behaviour of the SSE/x87 instructions (structure FpuSpec: abstract operations + Intel-SDM '
+    'contracts as Prop fields; no IEEE-754 formalisation). Every theorem is relative to it. Satisfiable (Lemmas/FpToy.lean); the host '
+    'CPU is validated against each contract on every run (instruction executed through gcc inline asm on the boundary classes, '
+    '`drv_c02 contract` decides the contract on each observed pair with val* read as IEEE/x87 decoding)',
+    'Spec/FpC11Spec.lean (my reading of C11 6.3.1.2/6.3.1.4/6.3.1.5/6.3.1.8, 6.5.8/6.5.9 + Annex F for comparisons and truth) and '
+    'checklib/c02_fp.py (exact rational round-to-nearest-even for binary32/binary64/x87-80): validated against gcc 12 on every generated case',
+    'Model/FpMachine.lean: mnemonic -> operation and operand order of ~50 SSE/x87 instruction forms, x87 stack as a list, flags of '
+    'ucomis*/fcomip; integer instructions by Model/X86.lean (validated against the CPU by C01). Validated end to end only (oracle leg d)',
+    'Model/FpCodegen.lean: hand model of the floating arms of cmp_zero/cast/load/gen_expr (ND_NUM, ND_NEG, binary operators, '
+    'truth-test contexts); tied by text equality with `chibicc -S` on every conversion cell (12x12), every operator x type pair with a '
+    'floating common type, every truth-test context and a battery of constants',
+    'translators tools/extract/casttable.py (cast_table cells as structured instructions, getTypeId) and commontype.py (get_common_type)',
+    'not modelled in Lean (covered by the gcc oracle only, which is testing): convert_pp_number/strtold and the suffix ladder, '
+    'eval_double (static initialisers), compound assignment / ++ -- rewritings of parse.c, default argument promotions, the actual '
+    'rounding performed by the SSE/x87 units',
 ]
-ASSUMPTIONS = []
+ASSUMPTIONS = ['x86-64 SysV, FLT_EVAL_METHOD 0, round-to-nearest-even, x87 control word 0x37f on entry (neither chibicc nor the '
+               'generated programs change the rounding mode except inside FROM_F80, which restores it: proved)',
+               'division by zero and overflow of floating arithmetic are taken as IEC 60559 defines them (property text: IEEE formats)',
+               'which of two NaN operand payloads an arithmetic result carries is not compared (not fixed by C11 or IEC 60559)']
 
 
 # -------------------------------------------------------------------------------------------------- build + run
@@ -90,7 +108,7 @@ def violation(corr, what, prog, expected, got, known=None, **more):
     corr.violations.append(v)
 
 
-MAXV = 12   # violations reported per batch (the first ones are the smallest indices = boundary classes)
+MAXV = 2    # violations reported per leg (the first ones are the smallest indices = boundary classes)
 
 
 def small_int_value(t, v):
@@ -105,10 +123,10 @@ def small_int_value(t, v):
 
 def run_conversions(ctx, corr):
     rng = ctx.rng
-    nrand = 40 if ctx.thorough else 6
+    nrand = 150 if ctx.thorough else 20
     values = {t: O.int_values(t, rng, nrand) for t in O.ITYS}
     for t in O.FTYS:
-        values[t] = O.fp_values(t, rng, 400 if ctx.thorough else 30)
+        values[t] = O.fp_values(t, rng, 1500 if ctx.thorough else 80)
     pairs = [(f, t) for f in O.ATYS for t in O.ATYS]
     text, cases, skipped = O.conv_program(values, pairs)
     corr.count('skipped_ub', skipped)
@@ -187,7 +205,7 @@ def op_values(ctx, fmt):
     add(qnan_bits(fmt, 0))
     add(qnan_bits(fmt, 1, 0x55))
     add(snan_bits(fmt, 0, 0x77))
-    for b in O.fp_values(fmt, ctx.rng, 30 if ctx.thorough else 4)[-(30 if ctx.thorough else 4):]:
+    for b in O.fp_values(fmt, ctx.rng, 60 if ctx.thorough else 10)[-(60 if ctx.thorough else 10):]:
         add(b)
     return pats
 
@@ -406,7 +424,7 @@ def corpus_literals():
 
 def run_constants(ctx, corr):
     rng = ctx.rng
-    texts = corpus_literals() + O.gen_literals(rng, 1500 if ctx.thorough else 120)
+    texts = corpus_literals() + O.gen_literals(rng, 6000 if ctx.thorough else 300)
     lits = []
     for k, text in enumerate(dict.fromkeys(texts)):
         for suf, fmt in O.SUFFIX:
@@ -560,6 +578,153 @@ def run_text_tie(ctx, corr):
     corr.sample({'text tie': {'cases': len(cases), 'example': cases[150][0], 'model': model[150][:160]}})
 
 
+# -------------------------------------------------------------------------------------------------- FpuSpec contracts <-> CPU
+
+def py_round_nat(p, n):
+    """independent implementation of Spec.Fpu.roundNat (round to nearest even of a natural number to p significant bits)"""
+    l = n.bit_length()
+    if l <= p:
+        return n
+    s = l - p
+    q, r = n >> s, n & ((1 << s) - 1)
+    half = 1 << (s - 1)
+    if r > half or (r == half and q & 1):
+        q += 1
+    return q << s
+
+
+def run_contracts(ctx, corr):
+    rng = ctx.rng
+    nr = 300 if ctx.thorough else 25
+    vals = {}
+    for k, bits in (('i16', 16), ('i32', 32), ('i64', 64)):
+        signed = O.int_values(k, rng, nr)
+        uns = O.int_values('u' + k[1:], rng, nr)
+        vals[k] = list(dict.fromkeys([v & ((1 << bits) - 1) for v in signed + uns]))
+    for f in O.FTYS:
+        vals[f] = O.fp_values(f, rng, nr * 3)
+    for f, key in (('f32', 'pairs32'), ('f64', 'pairs64'), ('f80', 'pairs80')):
+        base = op_values(ctx, f)
+        pairs = [(a, b) for a in base for b in base]
+        if not ctx.thorough:
+            pairs = pairs[:1] + rng.sample(pairs, min(len(pairs) - 1, 300))
+        vals[key] = pairs
+    text = O.contract_program(vals)
+    src = os.path.join(ctx.scratch, 'contract.c')
+    exe = os.path.join(ctx.scratch, 'contract.exe')
+    with open(src, 'w') as f:
+        f.write(text)
+    rc, o, e = sh(['gcc', '-std=gnu11', '-O0', '-w', '-o', exe, src], timeout=300)
+    if rc != 0:
+        corr.disagreements.append({'kind': 'contract harness', 'what': 'gcc cannot compile the instruction harness', 'detail': e[-600:]})
+        return
+    rc, o, e = sh([exe], timeout=300)
+    lines = [l for l in o.splitlines() if l.strip()]
+    if rc != 0 or not lines:
+        corr.disagreements.append({'kind': 'contract harness', 'what': f'instruction harness failed rc={rc}', 'detail': e[-300:]})
+        return
+    # the rounding function itself, against an independent implementation
+    for _ in range(4000 if ctx.thorough else 400):
+        p = rng.choice([24, 53, 64])
+        n = rng.getrandbits(rng.randrange(1, 66))
+        if rng.random() < 0.4:
+            k = n.bit_length() - p
+            if k > 0:
+                n = (n >> k << k) | (1 << (k - 1)) | (rng.getrandbits(1) if rng.random() < 0.5 else 0)
+        lines.append(f'roundnat {p} {n} {py_round_nat(p, n)}')
+    res = ctx.driver('contract', '\n'.join(lines) + '\n').splitlines()
+    if len(res) != len(lines):
+        corr.disagreements.append({'kind': 'contract harness', 'what': f'driver answered {len(res)} lines for {len(lines)}'})
+        return
+    for l, r in zip(lines, res):
+        corr.evaluations += 1
+        corr.count('contract:' + l.split()[0])
+        corr.nontrivial.add('contract ' + l)
+        if r != 'ok':
+            corr.disagreements.append({'kind': 'FpuSpec contract vs CPU',
+                                       'what': f'the host CPU does not satisfy the contract on `{l}`: driver says `{r}`'})
+            return
+    corr.sample({'contract': {'observed pairs': len(lines), 'example': lines[3] if len(lines) > 3 else None}})
+
+
+# -------------------------------------------------------------------------------------------------- more contexts
+
+def run_incdec(ctx, corr):
+    """x++ x-- ++x --x on float, double, long double objects (non-atomic, not bit-fields)"""
+    values = {}
+    for t in O.FTYS:
+        vs = op_values(ctx, t)
+        for x in (Fraction(1, 10), pow2(FMT[t]['p']), pow2(FMT[t]['p']) - 1, pow2(FMT[t]['p'] - 1), Fraction(1, 3), pow2(-30), Fraction(10) ** 30):
+            for s in (0, 1):
+                b = round_bits(t, s, x)
+                if b not in vs:
+                    vs.append(b)
+        values[t] = vs
+    text, cases = O.incdec_program(values)
+    b = Batch(ctx, corr, 'incdec', text, cases)
+    if not b.ok:
+        return
+    nv = 0
+    for key, (t, name, which, i) in cases.items():
+        v = values[t][i]
+        corr.evaluations += 1
+        corr.count(f'incdec:{name}')
+        g, c = b.gcc.get(key), b.cc.get(key)
+        if g is None:
+            corr.disagreements.append({'kind': 'oracle harness', 'what': f'gcc binary printed nothing for {key}'})
+            return
+        # spec: the value of x++ is the old value; the object holds fl(x +- 1)
+        d = decode(t, v)
+        if d[0] == 'fin':
+            one = 1 if 'inc' in name else -1
+            x = -d[2] if d[1] else d[2]
+            new = x + one
+            if new == 0:
+                newbits = pack(t, 0, 0, 0)
+            else:
+                newbits = round_bits(t, 1 if new < 0 else 0, abs(new))
+            want = v if (which == 'val' and name.startswith('post')) else newbits
+            if O.int_to_hex(want, O.nbytes(t)) != g[1]:
+                corr.disagreements.append({'kind': 'spec vs gcc', 'what': f'{t} {name} {which} of {v:#x}: python spec {want:#x}, gcc {g[1]}'})
+                return
+        corr.nontrivial.add(f'incdec {t} {name} {which} {v:x}')
+        if c is None or c[1] != g[1]:
+            corr.count(f'mismatch:incdec {t}.{name}.{which}')
+            if nv < MAXV:
+                nv += 1
+                violation(corr, f'{name} on a {O.CNAME[t]} object holding {describe(t, v)}: ' +
+                          ('value of the expression' if which == 'val' else 'stored value') + ' differs',
+                          O.incdec_minimal(t, name, which, v), g[1], c[1] if c else 'no output')
+    corr.sample({'inc/dec': {'operands per type': len(values['f32']), 'forms': ['x++', 'x--', '++x', '--x']}})
+
+
+def run_extras(ctx, corr):
+    """compound assignment with mixed types, default argument promotions, prototypes, static initialisers with conversions,
+    bit-field targets, sizeof of mixed expressions, NaN in every relational operator: one fixed program"""
+    oc, og, errs = compile_run(ctx, 'extras', O.EXTRAS_C)
+    if errs:
+        for e in errs:
+            if e.startswith('gcc:'):
+                corr.disagreements.append({'kind': 'oracle harness', 'what': 'gcc failed on the fixed program', 'detail': e})
+            else:
+                corr.violations.append({'what': 'chibicc fails on the fixed floating-point program', 'input': O.EXTRAS_C,
+                                        'expected': 'compiles and runs', 'got': e})
+        return
+    pg, pc = O.parse_output(og), O.parse_output(oc)
+    for key, g in pg.items():
+        corr.evaluations += 1
+        corr.count('extras')
+        corr.nontrivial.add('extras ' + key)
+        c = pc.get(key)
+        if c != g:
+            name = key.split()[0]
+            corr.count('mismatch:extras ' + name)
+            line = next((l for l in O.EXTRAS_C.splitlines() if f'pb("{name}"' in l), '')
+            violation(corr, f'fixed program, case `{name}`: different bytes', O.EXTRAS_C, g[1], c[1] if c else 'no output',
+                      case_line=line.strip())
+    corr.sample({'fixed program': {'cases': len(pg)}})
+
+
 # -------------------------------------------------------------------------------------------------- plugin entry points
 
 def correspond(ctx, corr):
@@ -572,14 +737,29 @@ def correspond(ctx, corr):
                  'side.  Constants: decimal/hex spellings x suffixes, halfway cases and their neighbours.  non-trivial = some operand is '
                  'not a non-negative integer below 2^15 (the kind of value the suite samples); distinct = by (operation, types, operand bits).')
     run_text_tie(ctx, corr)
+    run_contracts(ctx, corr)
     run_conversions(ctx, corr)
     run_operators(ctx, corr)
     run_contexts(ctx, corr)
     run_mixed(ctx, corr)
     run_constants(ctx, corr)
+    run_incdec(ctx, corr)
+    run_extras(ctx, corr)
 
 
 def search(ctx, broken, corr):
+    """a proof or the tie broke and the standard run saw no violation: run the end-to-end oracle with the thorough batteries"""
+    was = ctx.thorough
+    ctx.thorough = True
+    try:
+        for leg in (run_conversions, run_operators, run_contexts, run_mixed, run_constants, run_incdec):
+            c2 = Corr()
+            leg(ctx, c2)
+            for v in c2.violations:
+                if not v.get('known_id'):
+                    return v
+    finally:
+        ctx.thorough = was
     return None
 
 
@@ -592,14 +772,32 @@ def replay(ctx, corr, path):
     oc, og, errs = compile_run(ctx, 'replay', prog)
     corr.evaluations = 1
     print('replay: chibicc', (oc or '').strip(), '| gcc', (og or '').strip(), '|', errs or '')
+    if (errs or oc != og) and payload.get('known_id'):
+        corr.known_hits.append(payload['known_id'])
     if errs or oc != og:
         corr.violations.append({'what': payload.get('what', 'replayed program still differs'), 'input': prog, 'expected': (og or '').strip(),
                                 'got': (oc or '').strip(), **({'known_id': payload['known_id']} if payload.get('known_id') else {})})
 
 
 MANIFEST = {
-    'level_text': '',
-    'level_note': '',
-    'technique': '',
+    'level_text': 'Lean 4 theorems, for every FPU meeting the Intel-SDM contracts of Spec/FpuSpec.lean (abstract operations; the '
+                  'contracts are validated on the host CPU on every run), every machine state and every operand value: C02_rank '
+                  '(get_common_type = C11 6.3.1.8 on all 12x12 arithmetic pairs, regenerated table), C02_select_partial (the cast-table '
+                  'cell / _Bool sequence selected for each of the 63 (from,to) pairs with a floating side implements the C11 conversion: '
+                  'right instruction, width, signedness, slot, re-extension, control word restored), C02_u64f64 (the branchy unsigned long '
+                  '-> double cell = round-to-nearest-even of the unsigned value for all 2^64 inputs), C02_flags / C02_flags_truth / '
+                  'C02_compare_* / C02_truth (setcc/jcc combinations give the IEC 60559 answers incl. NaN and -0.0 on the SSE, x87 and '
+                  'truth-test paths), C02_arith (operand order), C02_neg (only the sign bit flips), C02_const (immediates = datum of the '
+                  'constant converted to the node type).  Tied to the code every run: table translators, text equality of the hand model '
+                  'with chibicc -S (873 one-operation functions), and an end-to-end oracle chibicc vs gcc vs exact rational arithmetic on '
+                  '~60k (quick) generated cases over the boundary classes of the property.',
+    'level_note': 'PARTIAL. Numeric results are relative to FpuSpec (validated on hardware, not proved). Known findings with kernel-checked '
+                  'witnesses: unsigned long -> float at >= 2^63 (signed cvtsi2ssq), floating -> unsigned long at >= 2^63 (signed truncation), '
+                  'double rounding of literals through strtold; C02_select_Statement is therefore false and kept as a def. Not modelled in '
+                  'Lean: literal scanning (strtold, suffix ladder), eval_double, parse.c rewritings of op= / ++ / --, variadic promotions: '
+                  'these are covered by the gcc oracle only.',
+    'technique': 'Lean 4 proof over abstract FPU contracts: kernel evaluation of the generated instruction strings on a machine model, '
+                 'BitVec/Int arithmetic for the integer side, whole-table decide; translator-regenerated tables; asm-text correspondence; '
+                 'three-way differential oracle (chibicc, gcc, exact rational spec) and CPU validation of the contracts',
     'design_ref': 'DESIGN.md section 6, C02',
 }
